@@ -1,7 +1,780 @@
-//! C33 — not built yet.
-use vcore::Ctx;
+//! C33 — dynamic schemas build exactly when the type system is valid; every schema that builds can be introspected,
+//! exported and queried without panicking.
+//!
+//! Domain: `gen_sch` type systems (valid by construction) and ONE mutation operator applied to them (single-rule
+//! violations, plus the valid neighbours of each rule: covariant field types, additional optional arguments, broken
+//! cycles, three-level interface inheritance). The operator's intent is never trusted: the reference validator
+//! `vgql::typesys::validate` (written from spec §3) decides whether the mutated `Sch` is valid.
+use crate::execcmp::request;
+use async_graphql::dynamic::Schema;
+use futures_util::StreamExt;
+use serde_json::json;
+use vcore::drive::catch;
+use vcore::{Case, Ctx, Src};
+use vgql::ast::*;
+use vgql::gensch::*;
+use vgql::gentyped::*;
+use vgql::print::print_plain;
+use vgql::sch::*;
+use vgql::typesys::*;
+use vgql::world::*;
+use vschemas::dynbuild::build_dynamic;
+use vschemas::rt::Rt;
 
-pub fn run(_ctx: &mut Ctx) {
-    eprintln!("C33: check not built yet");
-    std::process::exit(2);
+// ---------------------------------------------------------------------------------------------------------------
+// known findings: id, quirk switch
+
+const NF: usize = 10;
+const FINDINGS: [(&str, fn(&mut TsQuirks)); NF] = [
+    ("C33-F1", |q| q.nonnull_variance_reversed = true),
+    ("C33-F2", |q| q.abstract_covariance_rejected = true),
+    ("C33-F3", |q| q.extra_required_argument_accepted = true),
+    ("C33-F4", |q| q.missing_nullable_argument_accepted = true),
+    ("C33-F5", |q| q.argument_type_subtype = true),
+    ("C33-F6", |q| q.interface_implements_unknown_accepted = true),
+    ("C33-F7", |q| q.parent_interface_declaration_unchecked = true),
+    ("C33-F8", |q| q.missing_subscription_root_accepted = true),
+    ("C33-F9", |q| q.empty_union_accepted = true),
+    ("C33-F10", |q| q.subscription_fields_unchecked = true),
+];
+
+/// which finding constructs the operators may produce
+#[derive(Clone, Copy)]
+struct Allow {
+    on: [bool; NF],
+}
+impl Allow {
+    fn f(&self, n: usize) -> bool {
+        self.on[n - 1]
+    }
+}
+
+// ---------------------------------------------------------------------------------------------------------------
+// mutation operators
+
+const NOPE: &str = "Nope";
+
+fn names_of(sch: &Sch, k: Kind) -> Vec<String> {
+    sch.types.values().filter(|t| t.kind == k).map(|t| t.name.clone()).collect()
+}
+fn pick_name(s: &mut dyn Src, xs: &[String]) -> Option<String> {
+    if xs.is_empty() {
+        None
+    } else {
+        Some(xs[s.choose(xs.len())].clone())
+    }
+}
+/// types (objects and interfaces) that declare `iface`
+fn declarers(sch: &Sch, iface: &str) -> Vec<String> {
+    sch.types.values().filter(|t| t.interfaces.iter().any(|i| i == iface)).map(|t| t.name.clone()).collect()
+}
+/// an interface field that is defined by `iface` itself (not inherited from one of its interfaces)
+fn own_fields(sch: &Sch, iface: &str) -> Vec<String> {
+    let t = &sch.types[iface];
+    t.fields.iter().filter(|f| !t.interfaces.iter().any(|p| sch.types.get(p).map_or(false, |pt| pt.field(&f.name).is_some()))).map(|f| f.name.clone()).collect()
+}
+fn holders(sch: &Sch, field: &str) -> Vec<String> {
+    sch.types.values().filter(|t| t.field(field).is_some()).map(|t| t.name.clone()).collect()
+}
+fn field_mut<'a>(sch: &'a mut Sch, ty: &str, field: &str) -> &'a mut FieldDef {
+    sch.types.get_mut(ty).unwrap().fields.iter_mut().find(|f| f.name == field).unwrap()
+}
+/// type with `flags[k]` = non-null at list depth k (flags.len() - 1 = list depth)
+fn shape(base: &str, flags: &[bool]) -> Ty {
+    let d = flags.len() - 1;
+    let mut t = Ty::named(base);
+    if flags[d] {
+        t = Ty::nn(t);
+    }
+    for k in (0..d).rev() {
+        t = Ty::list(t);
+        if flags[k] {
+            t = Ty::nn(t);
+        }
+    }
+    t
+}
+fn gen_flags(s: &mut dyn Src) -> Vec<bool> {
+    let d = s.weighted(&[5, 4, 1]);
+    (0..=d).map(|_| s.bool()).collect()
+}
+
+/// interface + one of its own fields + one declarer; None if the schema has no such triple
+fn pick_impl(s: &mut dyn Src, sch: &Sch) -> Option<(String, String, String)> {
+    let ifs: Vec<String> = names_of(sch, Kind::Interface).into_iter().filter(|i| !own_fields(sch, i).is_empty() && !declarers(sch, i).is_empty()).collect();
+    let i = pick_name(s, &ifs)?;
+    let f = pick_name(s, &own_fields(sch, &i))?;
+    let d = pick_name(s, &declarers(sch, &i))?;
+    Some((i, f, d))
+}
+
+/// make sure the schema has `child implements parent` between interfaces; returns (child, parent)
+fn ensure_inheritance(sch: &mut Sch) -> (String, String) {
+    for t in sch.types.values() {
+        if t.kind == Kind::Interface {
+            if let Some(p) = t.interfaces.first() {
+                return (t.name.clone(), p.clone());
+            }
+        }
+    }
+    let child = names_of(sch, Kind::Interface).last().cloned().expect("gen_sch always has an interface");
+    let mut p = TypeDef::new("IfP", Kind::Interface);
+    let pf = FieldDef { name: "p0".into(), args: vec![], ty: Ty::named("Int"), desc: None, deprecated: None };
+    p.fields.push(pf.clone());
+    sch.types.insert("IfP".into(), p);
+    let mut todo = declarers(sch, &child);
+    todo.push(child.clone());
+    for n in todo {
+        let t = sch.types.get_mut(&n).unwrap();
+        t.interfaces.push("IfP".into());
+        t.fields.push(pf.clone());
+    }
+    (child, "IfP".into())
+}
+
+fn output_bases(sch: &Sch) -> Vec<String> {
+    let mut v: Vec<String> = BUILTIN_SCALARS.iter().map(|s| s.to_string()).collect();
+    v.extend(sch.types.values().filter(|t| t.kind != Kind::Input).map(|t| t.name.clone()));
+    v.retain(|n| Some(n) != sch.subscription.as_ref());
+    v
+}
+fn input_bases(sch: &Sch) -> Vec<String> {
+    let mut v: Vec<String> = BUILTIN_SCALARS.iter().map(|s| s.to_string()).collect();
+    v.extend(sch.types.values().filter(|t| matches!(t.kind, Kind::Scalar | Kind::Enum | Kind::Input)).map(|t| t.name.clone()));
+    v
+}
+
+/// Apply one operator; returns its label (class) — `None` = the operator does not apply to this schema.
+fn mutate(s: &mut dyn Src, sch: &mut Sch, allow: &Allow) -> Option<String> {
+    let group = s.weighted(&[3, 4, 2, 3, 10, 10, 3, 3, 1, 1, 4]);
+    match group {
+        // ---- root operation types
+        0 => {
+            let which = s.choose(3);
+            let missing = s.bool();
+            let name = if missing {
+                NOPE.to_string()
+            } else {
+                let cands: Vec<String> = sch.types.values().filter(|t| t.kind != Kind::Object).map(|t| t.name.clone()).collect();
+                pick_name(s, &cands)?
+            };
+            let kind = if missing { "missing".to_string() } else { format!("is-{}", kind_word(sch.types[&name].kind).replace(' ', "-")) };
+            match which {
+                0 => sch.query = name,
+                1 => sch.mutation = Some(name),
+                _ => {
+                    if missing && !allow.f(8) {
+                        return None;
+                    }
+                    sch.subscription = Some(name)
+                }
+            }
+            Some(format!("root-{}-{}", ["query", "mutation", "subscription"][which], kind))
+        }
+        // ---- field / argument / input field type of the wrong category or unknown
+        1 => {
+            let unknown = s.chance(1, 3);
+            let hosts: Vec<String> = sch.types.values().filter(|t| matches!(t.kind, Kind::Object | Kind::Interface) && !t.fields.is_empty() && (allow.f(10) || Some(&t.name) != sch.subscription.as_ref())).map(|t| t.name.clone()).collect();
+            match s.choose(3) {
+                0 => {
+                    let h = pick_name(s, &hosts)?;
+                    let base = if unknown { NOPE.to_string() } else { pick_name(s, &names_of(sch, Kind::Input))? };
+                    let fl = gen_flags(s);
+                    let n = sch.types[&h].fields.len();
+                    let f = &mut sch.types.get_mut(&h).unwrap().fields[s.choose(n)];
+                    f.ty = shape(&base, &fl);
+                    Some(if unknown { "field-type-unknown".into() } else { "field-of-input-object-type".into() })
+                }
+                1 => {
+                    let h = pick_name(s, &hosts)?;
+                    let outs: Vec<String> = sch.types.values().filter(|t| matches!(t.kind, Kind::Object | Kind::Interface | Kind::Union)).map(|t| t.name.clone()).collect();
+                    let base = if unknown { NOPE.to_string() } else { pick_name(s, &outs)? };
+                    let label = if unknown { "argument-type-unknown".to_string() } else { format!("argument-of-{}-type", kind_word(sch.types[&base].kind)) };
+                    let fl = gen_flags(s);
+                    let n = sch.types[&h].fields.len();
+                    let f = &mut sch.types.get_mut(&h).unwrap().fields[s.choose(n)];
+                    if f.args.is_empty() {
+                        f.args.push(ArgDef { name: "ax".into(), ty: Ty::named("Int"), default: None, desc: None, deprecated: None });
+                    }
+                    let k = s.choose(f.args.len());
+                    f.args[k].ty = shape(&base, &fl);
+                    f.args[k].default = None;
+                    Some(label)
+                }
+                _ => {
+                    let h = pick_name(s, &names_of(sch, Kind::Input).into_iter().filter(|n| !sch.types[n].one_of).collect::<Vec<_>>())?;
+                    let outs: Vec<String> = sch.types.values().filter(|t| matches!(t.kind, Kind::Object | Kind::Interface | Kind::Union)).map(|t| t.name.clone()).collect();
+                    let base = if unknown { NOPE.to_string() } else { pick_name(s, &outs)? };
+                    let label = if unknown { "input-field-type-unknown".to_string() } else { format!("input-field-of-{}-type", kind_word(sch.types[&base].kind)) };
+                    let fl = gen_flags(s);
+                    let n = sch.types[&h].input_fields.len();
+                    let f = &mut sch.types.get_mut(&h).unwrap().input_fields[s.choose(n)];
+                    f.ty = shape(&base, &fl);
+                    f.default = None;
+                    Some(label)
+                }
+            }
+        }
+        // ---- a type lacks a field of an interface it declares
+        2 => {
+            let (_i, f, d) = pick_impl(s, sch)?;
+            let is_if = sch.types[&d].kind == Kind::Interface;
+            sch.types.get_mut(&d).unwrap().fields.retain(|x| x.name != f);
+            Some(format!("interface-field-missing-on-{}", if is_if { "interface" } else { "object" }))
+        }
+        // ---- implements: unknown name / not an interface
+        3 => {
+            let on_interface = s.bool();
+            let hosts = names_of(sch, if on_interface { Kind::Interface } else { Kind::Object });
+            let hosts: Vec<String> = hosts.into_iter().filter(|h| Some(h) != sch.subscription.as_ref()).collect();
+            let h = pick_name(s, &hosts)?;
+            let unknown = s.bool();
+            if unknown && on_interface && !allow.f(6) {
+                return None;
+            }
+            let name = if unknown {
+                NOPE.to_string()
+            } else {
+                let mut cands: Vec<String> = sch.types.values().filter(|t| t.kind != Kind::Interface && t.name != h).map(|t| t.name.clone()).collect();
+                cands.push("Int".into());
+                cands.retain(|c| Some(c) != sch.subscription.as_ref());
+                pick_name(s, &cands)?
+            };
+            let what = if unknown { "unknown".to_string() } else { sch.kind(&name).map(|k| kind_word(k).replace(' ', "-")).unwrap_or_default() };
+            sch.types.get_mut(&h).unwrap().interfaces.push(name);
+            Some(format!("{}-implements-{}", if on_interface { "interface" } else { "object" }, what))
+        }
+        // ---- implementing field type: both variance directions
+        4 => {
+            let (i, f, d) = pick_impl(s, sch)?;
+            // wrappers: the interface side, and the implementation with at most one non-null flag toggled or a list level
+            // added / removed
+            let fi = gen_flags(s);
+            let mut fo = fi.clone();
+            let wrap_label = match s.weighted(&[3, 5, 1]) {
+                0 => "same-wrappers",
+                1 => {
+                    let k = s.choose(fo.len());
+                    fo[k] = !fo[k];
+                    if fo[k] {
+                        "non-null-added"
+                    } else {
+                        "non-null-dropped"
+                    }
+                }
+                _ => {
+                    if fo.len() > 1 && s.bool() {
+                        fo.remove(0);
+                        "list-level-removed"
+                    } else {
+                        fo.insert(0, s.bool());
+                        "list-level-added"
+                    }
+                }
+            };
+            if !allow.f(1) && wrap_label.starts_with("non-null") {
+                return None;
+            }
+            // named types
+            let objs: Vec<String> = names_of(sch, Kind::Object).into_iter().filter(|o| *o != sch.query && Some(o) != sch.mutation.as_ref() && Some(o) != sch.subscription.as_ref()).collect();
+            let (bi, bo, base_label): (String, String, &str) = match s.weighted(&[3, 3, 3, 2, 2, 2]) {
+                0 => {
+                    let b = pick_name(s, &output_bases(sch))?;
+                    (b.clone(), b, "same-name")
+                }
+                1 => {
+                    // interface / implementing object
+                    let o = pick_name(s, &objs.iter().filter(|o| !sch.types[*o].interfaces.is_empty()).cloned().collect::<Vec<_>>())?;
+                    let ifs = sch.types[&o].interfaces.clone();
+                    (pick_name(s, &ifs)?, o, "object-for-interface")
+                }
+                2 => {
+                    let u = pick_name(s, &names_of(sch, Kind::Union))?;
+                    (u.clone(), pick_name(s, &sch.types[&u].members.clone())?, "member-for-union")
+                }
+                3 => {
+                    let (c, p) = ensure_inheritance(sch);
+                    (p, c, "interface-for-interface")
+                }
+                4 => {
+                    // the wrong way round: the implementation widens the type
+                    let o = pick_name(s, &objs.iter().filter(|o| !sch.types[*o].interfaces.is_empty()).cloned().collect::<Vec<_>>())?;
+                    let ifs = sch.types[&o].interfaces.clone();
+                    (o, pick_name(s, &ifs)?, "interface-for-object")
+                }
+                _ => {
+                    let all = output_bases(sch);
+                    let a = pick_name(s, &all)?;
+                    let b = pick_name(s, &all)?;
+                    if a == b {
+                        return None;
+                    }
+                    (a, b, "other-name")
+                }
+            };
+            if !allow.f(2) && matches!(base_label, "object-for-interface" | "member-for-union" | "interface-for-interface") {
+                return None;
+            }
+            let ti = shape(&bi, &fi);
+            let to = shape(&bo, &fo);
+            for h in holders(sch, &f) {
+                field_mut(sch, &h, &f).ty = ti.clone();
+            }
+            field_mut(sch, &d, &f).ty = to.clone();
+            if sch.types[&d].kind == Kind::Interface && s.bool() {
+                // let the implementers of the narrowed interface follow it
+                for h in declarers(sch, &d) {
+                    if sch.types[&h].field(&f).is_some() {
+                        field_mut(sch, &h, &f).ty = to.clone();
+                    }
+                }
+            }
+            let _ = i;
+            Some(format!("field-type/{}/{}", base_label, wrap_label))
+        }
+        // ---- arguments of an implementing field
+        5 => {
+            let (_i, f, d) = pick_impl(s, sch)?;
+            // a fresh argument list on the interface field and on everything that carries the field
+            let ins = input_bases(sch);
+            let n_args = 1 + s.choose(2);
+            let mut args = vec![];
+            for k in 0..n_args {
+                let base = pick_name(s, &ins)?;
+                let fl = gen_flags(s);
+                let ty = shape(&base, &fl);
+                // a default only where `null`/`[]`-free values are easy: Int / Boolean
+                let default = if s.chance(1, 4) && fl.len() == 1 {
+                    match base.as_str() {
+                        "Int" => Some(Val::Int("1".into())),
+                        "Boolean" => Some(Val::Bool(true)),
+                        _ => None,
+                    }
+                } else {
+                    None
+                };
+                args.push((ArgDef { name: format!("a{}", k), ty, default, desc: None, deprecated: None }, fl, base));
+            }
+            for h in holders(sch, &f) {
+                field_mut(sch, &h, &f).args = args.iter().map(|a| a.0.clone()).collect();
+            }
+            let k = s.choose(n_args);
+            let (a, fl, base) = args[k].clone();
+            let target = field_mut(sch, &d, &f);
+            match s.weighted(&[3, 3, 4]) {
+                0 => {
+                    let kind = if !a.ty.is_nn() {
+                        "nullable"
+                    } else if a.default.is_some() {
+                        "defaulted"
+                    } else {
+                        "required"
+                    };
+                    if kind == "nullable" && !allow.f(4) {
+                        return None;
+                    }
+                    target.args.remove(k);
+                    Some(format!("argument-missing/{}", kind))
+                }
+                1 => {
+                    let kind = s.choose(3);
+                    if kind == 2 && !allow.f(3) {
+                        return None;
+                    }
+                    let (ty, default, label) = match kind {
+                        0 => (Ty::named("Int"), None, "nullable"),
+                        1 => (Ty::nn(Ty::named("Int")), Some(Val::Int("7".into())), "non-null-with-default"),
+                        _ => (Ty::nn(Ty::named("Int")), None, "required"),
+                    };
+                    target.args.push(ArgDef { name: "extra".into(), ty, default, desc: None, deprecated: None });
+                    Some(format!("argument-additional/{}", label))
+                }
+                _ => {
+                    let mut fo = fl.clone();
+                    let label = match s.weighted(&[4, 2, 2]) {
+                        0 => {
+                            let p = s.choose(fo.len());
+                            fo[p] = !fo[p];
+                            if fo[p] {
+                                if !allow.f(5) {
+                                    return None;
+                                }
+                                "non-null-added"
+                            } else {
+                                "non-null-dropped"
+                            }
+                        }
+                        1 => {
+                            fo.insert(0, false);
+                            "list-level-added"
+                        }
+                        _ => "other-name",
+                    };
+                    let nb = if label == "other-name" {
+                        let o = pick_name(s, &ins)?;
+                        if o == base {
+                            return None;
+                        }
+                        o
+                    } else {
+                        base
+                    };
+                    for h in holders(sch, &f) {
+                        // defaults would no longer fit both types; they play no part in this rule
+                        field_mut(sch, &h, &f).args[k].default = None;
+                    }
+                    field_mut(sch, &d, &f).args[k].ty = shape(&nb, &fo);
+                    Some(format!("argument-retyped/{}", label))
+                }
+            }
+        }
+        // ---- interface inheritance: the parent interface must be declared too
+        6 => {
+            let (child, parent) = ensure_inheritance(sch);
+            if s.bool() {
+                // an object that declares the child
+                let objs: Vec<String> = declarers(sch, &child).into_iter().filter(|d| sch.types[d].kind == Kind::Object).collect();
+                let o = pick_name(s, &objs)?;
+                if !allow.f(7) {
+                    return None;
+                }
+                sch.types.get_mut(&o).unwrap().interfaces.retain(|i| *i != parent);
+                Some("parent-interface-not-declared-by-object".into())
+            } else {
+                // a third level: IfC implements child (& parent)
+                let mut c = TypeDef::new("IfC", Kind::Interface);
+                c.fields = sch.types[&child].fields.clone();
+                c.fields.push(FieldDef { name: "c0".into(), args: vec![], ty: Ty::named("Int"), desc: None, deprecated: None });
+                c.interfaces.push(child.clone());
+                let declare_parent = s.bool();
+                if declare_parent {
+                    c.interfaces.extend(sch.types[&child].interfaces.clone());
+                } else if !allow.f(7) {
+                    return None;
+                }
+                sch.types.insert("IfC".into(), c);
+                Some(if declare_parent { "three-level-interface-inheritance".into() } else { "parent-interface-not-declared-by-interface".into() })
+            }
+        }
+        // ---- union members
+        7 => {
+            let u = pick_name(s, &names_of(sch, Kind::Union))?;
+            match s.choose(3) {
+                0 => {
+                    let mut cands: Vec<String> = sch.types.values().filter(|t| t.kind != Kind::Object && t.name != u).map(|t| t.name.clone()).collect();
+                    cands.push("Int".into());
+                    let m = pick_name(s, &cands)?;
+                    let label = format!("union-member-{}", sch.kind(&m).map(|k| kind_word(k).replace(' ', "-")).unwrap_or_default());
+                    sch.types.get_mut(&u).unwrap().members.push(m);
+                    Some(label)
+                }
+                1 => {
+                    sch.types.get_mut(&u).unwrap().members.push(NOPE.into());
+                    Some("union-member-unknown".into())
+                }
+                _ => {
+                    if !allow.f(9) {
+                        return None;
+                    }
+                    sch.types.get_mut(&u).unwrap().members.clear();
+                    Some("union-empty".into())
+                }
+            }
+        }
+        // ---- object without fields
+        8 => {
+            let referenced = s.bool();
+            sch.types.insert("ObE".into(), TypeDef::new("ObE", Kind::Object));
+            if referenced {
+                let q = sch.query.clone();
+                sch.types.get_mut(&q).unwrap().fields.push(FieldDef { name: "qe".into(), args: vec![], ty: Ty::named("ObE"), desc: None, deprecated: None });
+            }
+            Some(format!("object-without-fields/{}", if referenced { "referenced" } else { "unreferenced" }))
+        }
+        // ---- a valid neighbour: an interface nobody implements
+        9 => {
+            let mut t = TypeDef::new("IfLonely", Kind::Interface);
+            t.fields.push(FieldDef { name: "l0".into(), args: vec![], ty: Ty::named("IfLonely"), desc: None, deprecated: None });
+            sch.types.insert("IfLonely".into(), t);
+            Some("interface-without-implementers".into())
+        }
+        // ---- cycles of required input fields
+        _ => {
+            let k = 1 + s.choose(3);
+            let local = k >= 2 && s.chance(1, 4);
+            let names: Vec<String> = (0..k).map(|i| format!("Cy{}", i + 1)).collect();
+            // link i -> i+1 (last -> first, or last -> second for a cycle that does not contain the first)
+            let broken = s.weighted(&[4, 2, 1, 1, 1]);
+            let break_at = s.choose(k);
+            for i in 0..k {
+                let next = if i + 1 < k {
+                    names[i + 1].clone()
+                } else if local {
+                    names[1].clone()
+                } else {
+                    names[0].clone()
+                };
+                let ty = if i == break_at {
+                    match broken {
+                        0 => Ty::nn(Ty::named(&next)),
+                        1 => Ty::named(&next),
+                        2 => Ty::nn(Ty::list(Ty::nn(Ty::named(&next)))),
+                        3 => Ty::list(Ty::named(&next)),
+                        _ => Ty::nn(Ty::named("Int")),
+                    }
+                } else {
+                    Ty::nn(Ty::named(&next))
+                };
+                let mut t = TypeDef::new(&names[i], Kind::Input);
+                t.input_fields.push(ArgDef { name: "v".into(), ty: Ty::named("Int"), default: None, desc: None, deprecated: None });
+                t.input_fields.push(ArgDef { name: "n".into(), ty, default: None, desc: None, deprecated: None });
+                sch.types.insert(names[i].clone(), t);
+            }
+            let label = ["unbroken", "nullable-link", "list-link", "nullable-list-link", "no-link"][broken];
+            Some(format!("input-cycle/len{}{}/{}", k, if local { "-not-through-first" } else { "" }, label))
+        }
+    }
+}
+
+// ---------------------------------------------------------------------------------------------------------------
+// running one case
+
+const INTROSPECTION: &str = "query IntrospectionQuery { __schema { description queryType { name } mutationType { name } subscriptionType { name } \
+  types { ...FullType } directives { name description isRepeatable locations args(includeDeprecated: true) { ...InputValue } } } } \
+  fragment FullType on __Type { kind name description specifiedByURL fields(includeDeprecated: true) { name description args(includeDeprecated: true) { ...InputValue } \
+  type { ...TypeRef } isDeprecated deprecationReason } inputFields(includeDeprecated: true) { ...InputValue } interfaces { ...TypeRef } \
+  enumValues(includeDeprecated: true) { name description isDeprecated deprecationReason } possibleTypes { ...TypeRef } } \
+  fragment InputValue on __InputValue { name description type { ...TypeRef } defaultValue isDeprecated deprecationReason } \
+  fragment TypeRef on __Type { kind name ofType { kind name ofType { kind name ofType { kind name ofType { kind name ofType { kind name ofType { kind name ofType { kind name } } } } } } } }";
+
+fn render(label: &str, sch: &Sch) -> String {
+    format!(
+        "operator: {}\nroots: query={} mutation={} subscription={}\nschema: {}",
+        label,
+        sch.query,
+        sch.mutation.as_deref().unwrap_or("-"),
+        sch.subscription.as_deref().unwrap_or("-"),
+        show_sch(sch)
+    )
+}
+
+/// introspection, SDL export and generated requests against a schema that built; Err = a panic (or a failing
+/// introspection request)
+fn exercise(schema: &Schema, sch: &Sch, s: &mut dyn Src, reference_valid: bool, n_queries: usize) -> Result<u32, String> {
+    let resp = catch(|| vcore::det::block_on(schema.execute(INTROSPECTION))).map_err(|p| format!("introspection query panicked: {}", p))?;
+    if !resp.errors.is_empty() {
+        return Err(format!("introspection query answered with errors: {:?}", resp.errors.iter().map(|e| e.message.clone()).collect::<Vec<_>>()));
+    }
+    let sdl = catch(|| schema.sdl()).map_err(|p| format!("sdl() panicked: {}", p))?;
+    if sdl.is_empty() {
+        return Err("sdl() is empty".into());
+    }
+    let mut ran = 0;
+    if !reference_valid {
+        // documents are generated from the `Sch`; for a type system the reference rejects the generator has no contract
+        return Ok(ran);
+    }
+    let mut cfg = TypedCfg::default();
+    cfg.ops = vec![OpKind::Query, OpKind::Query, OpKind::Mutation];
+    for _ in 0..n_queries {
+        let mut td = gen_typed_doc(sch, s, &cfg);
+        let text = print_plain(&mut td.doc);
+        catch(|| vcore::det::block_on(schema.execute(request(&text, &td.vars, td.op_name.as_deref())))).map_err(|p| format!("request panicked: {}\nquery: {}", p, text))?;
+        ran += 1;
+    }
+    if sch.subscription.is_some() {
+        let mut scfg = TypedCfg::default();
+        scfg.ops = vec![OpKind::Subscription];
+        let mut td = gen_typed_doc(sch, s, &scfg);
+        let text = print_plain(&mut td.doc);
+        catch(|| vcore::det::block_on(schema.execute_stream(request(&text, &td.vars, td.op_name.as_deref())).collect::<Vec<_>>())).map_err(|p| format!("subscription panicked: {}\nquery: {}", p, text))?;
+        ran += 1;
+    }
+    Ok(ran)
+}
+
+fn judge(ctx_open: &[bool; NF], label: &str, sch: &Sch, s: &mut dyn Src, n_queries: usize) -> Case {
+    let rendered = render(label, sch);
+    // don't-care class: a cycle that exists only if fields with default values count as links
+    if input_cycles(sch, false) != input_cycles(sch, true) {
+        return Case::discard("input cycle through a defaulted field");
+    }
+    let violations = validate(sch, &TsQuirks::default());
+    let valid = violations.is_empty();
+    let world = if valid { gen_world(sch, s, &WorldCfg { null_composite_items: false, ..WorldCfg::default() }) } else { World::default() };
+    let rt = Rt::new(world);
+    let built = match catch(|| build_dynamic(sch, &rt, |b| b)) {
+        Ok(b) => b,
+        Err(p) => return Case::fail(rendered, format!("SchemaBuilder::finish panicked: {} (reference: {})", p, show_violations(&violations))),
+    };
+    let mut case = match (&built, valid) {
+        (Ok(_), true) | (Err(_), false) => Case::pass(rendered.clone()),
+        _ => {
+            // does the deviation equal what a set of OPEN findings predicts? smallest set first
+            let open: Vec<usize> = (0..NF).filter(|i| ctx_open[*i]).collect();
+            let mut best: Option<Vec<usize>> = None;
+            for mask in 1u32..(1 << open.len()) {
+                let set: Vec<usize> = open.iter().enumerate().filter(|(k, _)| mask & (1 << k) != 0).map(|(_, i)| *i).collect();
+                if best.as_ref().map_or(false, |b| b.len() <= set.len()) {
+                    continue;
+                }
+                let mut q = TsQuirks::default();
+                for i in &set {
+                    (FINDINGS[*i].1)(&mut q);
+                }
+                if validate(sch, &q).is_empty() == built.is_ok() {
+                    best = Some(set);
+                }
+            }
+            match best {
+                Some(set) => Case::known(rendered.clone(), set.iter().map(|i| FINDINGS[*i].0.to_string()).collect()),
+                None => Case::fail(
+                    rendered.clone(),
+                    match &built {
+                        Ok(_) => format!("finish() is Ok but the type system is invalid: {}", show_violations(&violations)),
+                        Err(e) => format!("finish() fails with \"{}\" but the reference validator finds no violation", e.0),
+                    },
+                ),
+            }
+        }
+    };
+    let mut ran = 0;
+    if let Ok(schema) = &built {
+        match exercise(schema, sch, s, valid, n_queries) {
+            Ok(n) => ran = n,
+            Err(why) => case = Case::fail(rendered, why),
+        }
+    }
+    let mut rules: Vec<&str> = violations.iter().map(|v| v.rule).collect();
+    rules.sort();
+    rules.dedup();
+    case = case.class(format!("op:{}", label)).class(if valid { "reference:valid" } else { "reference:invalid" }).class(if built.is_ok() { "finish:ok" } else { "finish:err" });
+    for r in &rules {
+        case = case.class(format!("rule:{}", r));
+    }
+    case = case.class_if(rules.len() == 1, "single-rule-violation").class_if(ran > 0, "queried");
+    case.nontrivial = true;
+    case
+}
+
+fn show_violations(v: &[Violation]) -> String {
+    if v.is_empty() {
+        return "valid".into();
+    }
+    v.iter().map(|x| format!("{} ({})", x.rule, x.at)).collect::<Vec<_>>().join("; ")
+}
+
+fn sch_cfg() -> SchCfg {
+    SchCfg { subscription: true, ..SchCfg::default() }
+}
+
+/// a few draws taken BEFORE the schema is generated and replayed first by the operator, so that the choice of the
+/// operator does not collapse to "the simplest one" whenever a short choice vector is used up by `gen_sch`
+struct Planned<'a> {
+    head: Vec<u32>,
+    pos: usize,
+    tail: &'a mut dyn Src,
+}
+impl<'a> Src for Planned<'a> {
+    fn raw(&mut self) -> u32 {
+        if self.pos < self.head.len() {
+            self.pos += 1;
+            self.head[self.pos - 1]
+        } else {
+            self.tail.raw()
+        }
+    }
+    fn used(&self) -> usize {
+        self.tail.used()
+    }
+    fn exhausted(&self) -> bool {
+        self.tail.exhausted()
+    }
+}
+
+fn one(open: &[bool; NF], allow: &Allow, s: &mut dyn Src, mutated: bool, n_queries: usize) -> Case {
+    let head: Vec<u32> = if mutated { (0..12).map(|_| s.raw()).collect() } else { vec![] };
+    let mut sch = gen_sch(s, &sch_cfg());
+    let label = if mutated {
+        match mutate(&mut Planned { head, pos: 0, tail: &mut *s }, &mut sch, allow) {
+            Some(l) => l,
+            None => return Case::discard("operator not applicable"),
+        }
+    } else {
+        "none".to_string()
+    };
+    judge(open, &label, &sch, s, n_queries)
+}
+
+/// hand-written regression cases: (name, SDL, expected verdict of the reference)
+const WITNESSES: [(&str, &str, bool); 17] = [
+    ("nonnull-dropped", "type Query implements I { f: Int } interface I { f: Int! }", false),
+    ("nonnull-added", "type Query implements I { f: Int! } interface I { f: Int }", true),
+    ("list-item-nonnull-added", "type Query implements I { f: [Int!] } interface I { f: [Int] }", true),
+    ("object-for-interface", "type Query { o: O } type O implements I { f: O } interface I { f: I }", true),
+    ("member-for-union", "type Query { o: O } type O implements I { f: O } interface I { f: U } union U = O", true),
+    ("interface-for-object", "type Query { o: O } type O implements I { f: I } interface I { f: O }", false),
+    ("extra-required-argument", "type Query implements I { f(a: Int, x: Int!): Int } interface I { f(a: Int): Int }", false),
+    ("extra-optional-argument", "type Query implements I { f(a: Int, x: Int, y: Int! = 1): Int } interface I { f(a: Int): Int }", true),
+    ("missing-nullable-argument", "type Query implements I { f: Int } interface I { f(a: Int): Int }", false),
+    ("argument-nonnull-added", "type Query implements I { f(a: Int!): Int } interface I { f(a: Int): Int }", false),
+    ("interface-implements-unknown", "type Query implements I { f: Int } interface I implements Nope { f: Int }", false),
+    ("parent-interface-not-declared", "type Query implements J { f: Int } interface I { f: Int } interface J implements I { f: Int }", false),
+    ("empty-union", "type Query { u: U } union U", false),
+    ("subscription-root-missing", "schema { query: Query subscription: Nope } type Query { f: Int }", false),
+    ("subscription-field-of-input-type", "type Query { f: Int } type Subscription { s: In } input In { v: Int }", false),
+    ("subscription-argument-of-interface-type", "type Query { f: Int } type Subscription { s(a: I): Int } interface I { f: Int }", false),
+    ("indirect-required-input-cycle", "type Query { f(a: A): Int } input A { b: B! } input B { c: C! } input C { a: A! }", false),
+];
+
+pub fn run(ctx: &mut Ctx) {
+    ctx.rule = "gen_sch type systems (<=12 types + what an operator adds) with zero or one mutation operator (root types, field/argument/input-field type category or unknown, missing \
+                interface field, implementing field type in both variance directions, missing/additional/retyped arguments, implements of unknown or non-interface types, undeclared parent \
+                interface, union members, object without fields, cycles of required input fields and their broken neighbours); verdict of finish() compared with the reference \
+                validator; accepted schemas answer the full introspection query (without errors), sdl() and generated requests without panicking. Every case is non-trivial; \
+                distinct by rendered (operator, schema)"
+        .into();
+    ctx.assume("only the rules the property lists are decided: names beginning with `__`, duplicate names, enum values, oneOf field rules, `interface implements itself`, interfaces / input objects without fields and identical root types never occur in the domain");
+    ctx.assume("'object without fields' and 'union without members' are counted as rules of the property (spec §3.6 / §3.8 Type Validation item 1) although its parenthesis does not name them");
+    ctx.assume("required input field = non-null, no default value; a cycle that only exists through a field WITH a default value is a don't-care class (October 2021 does not mention defaults) and is discarded");
+    ctx.assume("the subscription root is registered as dynamic::Subscription and is not referenced by other types (the dynamic API has no other way to express it)");
+    ctx.assume("a panic inside finish() is reported as a failure for valid and invalid type systems alike");
+    ctx.assume("requests are generated only for type systems the reference accepts (the document generator needs a valid Sch); wrongly accepted ones are still introspected and exported");
+    let mut open = [false; NF];
+    for (i, (id, _)) in FINDINGS.iter().enumerate() {
+        open[i] = ctx.open(id);
+        if open[i] {
+            ctx.excluded(id);
+        }
+    }
+    // explicit witnesses
+    let t0 = std::time::Instant::now();
+    for (name, sdl, expect_valid) in WITNESSES.iter() {
+        let sch = from_sdl_text(sdl).expect("witness SDL");
+        let got = validate(&sch, &TsQuirks::default()).is_empty();
+        if got != *expect_valid {
+            ctx.check_case("witnesses", Case::fail(format!("witness {}: {}", name, sdl), "HARNESS: the reference validator disagrees with the hand-derived verdict"), json!(null));
+            continue;
+        }
+        let mut src = vcore::src::VecSrc::new(&[]);
+        let c = judge(&open, &format!("witness:{}", name), &sch, &mut src, 1);
+        ctx.check_case("witnesses", c, json!({"sdl": sdl}));
+    }
+    ctx.enumerated("witnesses", WITNESSES.len() as u64, true, t0);
+
+    let mut main_allow = Allow { on: [true; NF] };
+    for i in 0..NF {
+        main_allow.on[i] = !open[i];
+    }
+    let n = ctx.tier.pick(5_000, 150_000);
+    ctx.stream("valid", n, 700, |s| one(&open, &main_allow, s, false, 3));
+    ctx.stream("mutated", n * 4, 700, |s| one(&open, &main_allow, s, true, 2));
+    if open.iter().any(|o| *o) {
+        let probe_allow = Allow { on: [true; NF] };
+        ctx.stream("probe-findings", n, 700, |s| one(&open, &probe_allow, s, true, 1));
+    }
+    ctx.floor("reference:valid", 100);
+    ctx.floor("reference:invalid", 100);
+    ctx.floor("single-rule-violation", 100);
+    ctx.floor("queried", 100);
 }
